@@ -239,7 +239,8 @@ def make_constraint(rec, j, con):
         xx = np.array(x, dtype=float, copy=True)
         if xx.shape == (rec.case["n"],):
             xm = xmap(rec.case, xx)
-            vals = [eval_scalar(s, xm) for s in specs]
+            shift = float(args[0]) if args else float(con.get("shift", 0.0))
+            vals = [eval_scalar(s, xm) + shift for s in specs]
         else:
             vals = [NAN for _ in specs]
         alt = rec.dev.get((fid, k))
@@ -418,9 +419,9 @@ def build(case, rec):
                     ub = float(ub.ravel()[0])
                 cons.append(NonlinearConstraint(f, lb, ub))
             elif form == "dict_ineq":
-                cons.append({"type": "ineq", "fun": f})
+                cons.append(dict({"type": "ineq", "fun": f}, **({"args": tuple(con["args"])} if "args" in con else {})))
             elif form == "dict_eq":
-                cons.append({"type": "eq", "fun": f})
+                cons.append(dict({"type": "eq", "fun": f}, **({"args": tuple(con["args"])} if "args" in con else {})))
             else:
                 raise common.HarnessError("unknown constraint form " + form)
             j += 1
